@@ -15,7 +15,8 @@ VARIABLES t, n, m
 a == Id0("a")  b == Id0("b")  x == Id0("x")  one == IntL(1)
 ab == Attr(a, "b")  abc == Attr(ab, "c")  bc == Attr(b, "c")  ac == Attr(a, "c")
 E == Hole("e")
-Atoms == { a, b, ab, abc, bc, ac, Id0("date"), Id0("k"), one, StrL(<<97>>),
+nsa == Id(<<"ns">>, "a")        \* a namespaced field: a different field from plain `a`
+Atoms == { a, b, ab, abc, bc, ac, nsa, Attr(nsa, "b"), Attr(Attr(nsa, "b"), "c"), Id0("date"), Id0("k"), one, StrL(<<97>>),
            Call(Id0("date"), <<Id0("date")>>), Call(Id0("length"), <<Id0("length")>>),
            Call(Id(<<"f">>, "g"), <<Named(Id0("k"), Id0("k")), Named(Id0("a"), ab)>>),
            Coll(Id0("cs"), "any", Lam(x, Cmp("eq", Attr(x, "a"), a))),
@@ -51,7 +52,9 @@ Maps == << [z \in {} |-> z],                                    \* 1 empty
            Map2(a, b, bc, Id0("hit")),                           \* 14 a/c -> b/c (not re-substituted)
            Map2(a, Id0("a_"), b, Id0("b_")),                     \* 15 fresh-name bijection
            Map1(abc, Id0("deep")),                               \* 16 3-segment key
-           Map1(Id0("cs"), Attr(Id0("org"), "cs")) >>            \* 17 collection owner
+           Map1(Id0("cs"), Attr(Id0("org"), "cs")),              \* 17 collection owner
+           Map1(nsa, Id0("nz")),                                 \* 18 namespaced key: ns.a only, never plain a
+           Map2(a, Id(<<"Sales">>, "total"), Attr(nsa, "b"), Attr(Id(<<"q">>, "r"), "s")) >>   \* 19 namespaced targets, namespaced path key
 Inverse15 == Map2(Id0("a_"), a, Id0("b_"), b)
 
 Init == t = E /\ n = 0 /\ m = 0
